@@ -370,7 +370,14 @@ func (y *LeafList) setParent(p Meta) {
 	y.parent = p
 }
 
-var anyType = newType("any")
+// anyType is shared by every anydata and anyxml so it is completely built here and
+// never written to after, otherwise loading modules concurrently would race compiling it
+var anyType = func() *Type {
+	t := newType("any")
+	t.format = val.FmtAny
+	t.delegate = t
+	return t
+}()
 
 type Any struct {
 	ident          string
